@@ -26,13 +26,31 @@ def main():
     rec = {"property": prop, "source": "independent sub-agent, worktree %s" % wt}
     try: rec["agent_meta"] = json.load(open(os.path.join(sd, "meta.json")))
     except Exception as e: rec["agent_meta"] = {"error": str(e)}
-    sh("git checkout -- pysyncobj", cwd=wt)
-    rc0, out0 = sh("PYTHONPATH=%s %s %s" % (wt, PY, demo), cwd=wt, timeout=600)
+    # demo: confirmed in the agent's own worktree (demos may hard-code its path); check: on a FRESH worktree of
+    # /repo's current HEAD (the agent's worktree may be older than later fix: commits) — the patch must apply there
+    agent_wt = wt
+    sh("git checkout -- pysyncobj", cwd=agent_wt)
+    rc0, out0 = sh("PYTHONPATH=%s %s %s" % (agent_wt, PY, demo), cwd=agent_wt, timeout=600)
+    rca, outa = sh("git apply %s" % patch, cwd=agent_wt)
+    if rca != 0:
+        print("patch does not apply in the agent's worktree:", outa); return 2
+    rci, outi = sh("PYTHONPATH=%s %s -c 'import pysyncobj, pysyncobj.batteries'" % (agent_wt, PY), cwd=agent_wt)
+    rc1, out1 = sh("PYTHONPATH=%s %s %s" % (agent_wt, PY, demo), cwd=agent_wt, timeout=600)
+    sh("git checkout -- pysyncobj", cwd=agent_wt)
+    fresh = "/tmp/seedrun-%s-%s" % (prop, k)
+    sh("git -C /repo worktree remove --force %s" % fresh)
+    rcw, outw = sh("git -C /repo worktree add --detach %s" % fresh)
+    if rcw != 0:
+        print("cannot create worktree:", outw); return 2
+    wt = fresh
+    rec["checked_on"] = sh("git -C /repo log --format=%h -1")[1].strip()
     rca, outa = sh("git apply %s" % patch, cwd=wt)
     if rca != 0:
-        print("patch does not apply:", outa); return 2
-    rci, outi = sh("PYTHONPATH=%s %s -c 'import pysyncobj, pysyncobj.batteries'" % (wt, PY), cwd=wt)
-    rc1, out1 = sh("PYTHONPATH=%s %s %s" % (wt, PY, demo), cwd=wt, timeout=600)
+        rca, outa = sh("git apply --3way %s" % patch, cwd=wt)
+    if rca != 0:
+        print("patch does not apply on current HEAD:", outa)
+        sh("git -C /repo worktree remove --force %s" % fresh)
+        return 2
     rec["demo"] = {"clean_exit": rc0, "patched_exit": rc1, "imports": rci == 0,
                    "clean_tail": out0[-300:], "patched_tail": out1[-500:]}
     confirmed = rc0 == 0 and rc1 != 0 and rci == 0
@@ -55,6 +73,7 @@ def main():
     os.makedirs(dst, exist_ok=True)
     shutil.copy(patch, os.path.join(dst, "patch.diff")); shutil.copy(demo, os.path.join(dst, "demo.py"))
     json.dump(rec, open(os.path.join(dst, "meta.json"), "w"), indent=1)
+    sh("git -C /repo worktree remove --force %s" % fresh)
     print(json.dumps({"prop": prop, "k": k, "confirmed": confirmed, "caught": rec["caught"], "exit": rcc, "lines": viol[:2]}, indent=1))
     return 0
 
